@@ -111,13 +111,39 @@ class Program:
             mi = ModuleInfo(name, p, rel, src, tree,
                             hashlib.sha256(raw).hexdigest()[:16])
             self.modules[name] = mi
+        # attribute names that are (re)bound anywhere outside an __init__:
+        # an alias of any other attribute chain (`gdata = self.global_data`)
+        # denotes the same object for the whole life of the instance
+        self.rebound_attrs = set()
+        for mi in self.modules.values():
+            for fn in ast.walk(mi.tree):
+                if isinstance(fn, (ast.FunctionDef, ast.AsyncFunctionDef)) \
+                        and fn.name != "__init__":
+                    for x in ast.walk(fn):
+                        if isinstance(x, ast.Attribute) and \
+                                isinstance(x.ctx, (ast.Store, ast.Del)):
+                            self.rebound_attrs.add(x.attr)
+            for x in ast.walk(mi.tree):
+                if isinstance(x, ast.Call) and \
+                        isinstance(x.func, ast.Name) and \
+                        x.func.id in ("setattr", "delattr"):
+                    # dynamic attribute stores: give up on alias folding of
+                    # literal names, and entirely when the name is computed
+                    if len(x.args) >= 2 and \
+                            isinstance(x.args[1], ast.Constant):
+                        self.rebound_attrs.add(x.args[1].value)
+        for mi in self.modules.values():
             self._index(mi)
 
     def _index(self, mi: ModuleInfo):
         if self.inline:
             for n in ast.walk(mi.tree):
                 if isinstance(n, (ast.FunctionDef, ast.AsyncFunctionDef)):
-                    inline_pure_locals(n)
+                    inline_local_procedures(n)
+            for n in ast.walk(mi.tree):
+                if isinstance(n, (ast.FunctionDef, ast.AsyncFunctionDef)):
+                    inline_pure_locals(n, stable_attr=lambda a: a not in
+                                       self.rebound_attrs)
         pkgparts = mi.name.split(".")
         for node in mi.tree.body:
             if isinstance(node, ast.Import):
@@ -349,7 +375,205 @@ def _pure_expr(e):
     return True
 
 
-def inline_pure_locals(fnode, max_size=90):
+def inline_local_procedures(fnode):
+    """Replace every statement  h(args)  that calls a local procedure h --
+    a nested def of this function that returns no value -- by h's body with
+    the parameters substituted (h's own locals get fresh names).  The rules
+    then see the same statements whether or not the author wrapped them in a
+    closure such as `fill_vals(which)` / `interp_vals(dest)`.  The def stays;
+    it is marked `_inlined` when every reference to it was such a call."""
+    import copy
+    procs = {}
+    for st in fnode.body:
+        if not isinstance(st, ast.FunctionDef) or st.decorator_list:
+            continue
+        a = st.args
+        if a.vararg or a.kwarg or a.kwonlyargs or a.posonlyargs:
+            continue
+        ok = True
+        body = list(st.body)
+        if body and isinstance(body[0], ast.Expr) and \
+                isinstance(body[0].value, ast.Constant) and \
+                isinstance(body[0].value.value, str):
+            body = body[1:]
+        if body and isinstance(body[-1], ast.Return) and \
+                body[-1].value is None:
+            body = body[:-1]
+        for x in body:
+            for y in ast.walk(x):
+                if isinstance(y, (ast.Return, ast.Yield, ast.YieldFrom,
+                                  ast.Nonlocal, ast.Global, ast.FunctionDef,
+                                  ast.AsyncFunctionDef, ast.ClassDef,
+                                  ast.Lambda, ast.Await)):
+                    ok = False
+        if not ok or not body:
+            continue
+        if st.name in procs:
+            procs[st.name] = None        # defined twice
+        else:
+            procs[st.name] = (st, body)
+    procs = {k: v for k, v in procs.items() if v}
+    if not procs:
+        return 0
+    # any other binding of the name disqualifies it
+    for x in walk_no_nested(fnode):
+        if isinstance(x, ast.Name) and isinstance(x.ctx, ast.Store) and \
+                x.id in procs:
+            procs.pop(x.id)
+    if not procs:
+        return 0
+
+    def simple(e):
+        if isinstance(e, (ast.Constant, ast.Name)):
+            return True
+        if isinstance(e, ast.Attribute):
+            return simple(e.value)
+        if isinstance(e, ast.UnaryOp) and isinstance(e.op, ast.USub):
+            return simple(e.operand)
+        return False
+    counter = [0]
+    refs = {k: 0 for k in procs}
+    inlined = {k: 0 for k in procs}
+    for x in walk_no_nested(fnode):
+        if isinstance(x, ast.Name) and isinstance(x.ctx, ast.Load) and \
+                x.id in procs:
+            refs[x.id] += 1
+    # references from inside nested defs keep the procedure alive
+    for st in fnode.body:
+        if isinstance(st, (ast.FunctionDef, ast.AsyncFunctionDef,
+                           ast.ClassDef)):
+            for x in ast.walk(st):
+                if isinstance(x, ast.Name) and x.id in procs and \
+                        x.id != getattr(st, "name", None):
+                    refs[x.id] += 100
+
+    def expand(call_stmt):
+        call = call_stmt.value
+        st, body = procs[call.func.id]
+        params = [p.arg for p in st.args.args]
+        if len(call.args) > len(params) or any(
+                isinstance(z, ast.Starred) for z in call.args):
+            return None
+        bind = dict(zip(params, call.args))
+        for kw in call.keywords:
+            if kw.arg is None or kw.arg not in params or kw.arg in bind:
+                return None
+            bind[kw.arg] = kw.value
+        defaults = st.args.defaults
+        for p_, d in zip(params[len(params) - len(defaults):], defaults):
+            bind.setdefault(p_, d)
+        if set(bind) != set(params) or not all(simple(v)
+                                               for v in bind.values()):
+            return None
+        counter[0] += 1
+        tag = "__%s%d" % (st.name, counter[0])
+        new = [copy.deepcopy(b) for b in body]
+        stored = set()
+        for b in new:
+            for y in ast.walk(b):
+                if isinstance(y, ast.Name) and isinstance(
+                        y.ctx, (ast.Store, ast.Del)):
+                    stored.add(y.id)
+                if isinstance(y, ast.ExceptHandler) and y.name:
+                    stored.add(y.name)
+        pre = []
+        for p_ in params:
+            if p_ in stored:
+                pre.append(ast.Assign(
+                    targets=[ast.Name(id=p_ + tag, ctx=ast.Store())],
+                    value=copy.deepcopy(bind[p_])))
+
+        class Sub(ast.NodeTransformer):
+            def visit_Name(self, nd):
+                if nd.id in stored:
+                    return ast.copy_location(
+                        ast.Name(id=nd.id + tag, ctx=nd.ctx), nd)
+                if nd.id in bind and isinstance(nd.ctx, ast.Load):
+                    return copy.deepcopy(bind[nd.id])
+                return nd
+
+            def visit_ExceptHandler(self, nd):
+                self.generic_visit(nd)
+                if nd.name in stored:
+                    nd.name = nd.name + tag
+                return nd
+        out = pre + [Sub().visit(b) for b in new]
+        for b in out:
+            for y in ast.walk(b):
+                if isinstance(y, (ast.expr, ast.stmt, ast.excepthandler)):
+                    y.lineno = call_stmt.lineno
+                    y.end_lineno = getattr(call_stmt, "end_lineno",
+                                           call_stmt.lineno)
+                    y.col_offset = call_stmt.col_offset
+                    y.end_col_offset = getattr(call_stmt, "end_col_offset",
+                                               0)
+            ast.fix_missing_locations(b)
+        return out
+
+    def rewrite(stmts, after):
+        k = 0
+        while k < len(stmts):
+            s_ = stmts[k]
+            if isinstance(s_, (ast.FunctionDef, ast.AsyncFunctionDef,
+                               ast.ClassDef)):
+                k += 1
+                continue
+            if isinstance(s_, ast.Expr) and isinstance(s_.value, ast.Call) \
+                    and isinstance(s_.value.func, ast.Name) and \
+                    s_.value.func.id in procs and \
+                    s_.lineno > procs[s_.value.func.id][0].lineno:
+                rep = expand(s_)
+                if rep is not None:
+                    inlined[s_.value.func.id] += 1
+                    stmts[k:k + 1] = rep
+                    k += len(rep)
+                    continue
+            for fld in ("body", "orelse", "finalbody"):
+                sub = getattr(s_, fld, None)
+                if isinstance(sub, list) and sub and \
+                        isinstance(sub[0], ast.stmt):
+                    rewrite(sub, after)
+            for h in getattr(s_, "handlers", []) or []:
+                rewrite(h.body, after)
+            k += 1
+    rewrite(fnode.body, None)
+    total = 0
+    for name, (st, body) in procs.items():
+        total += inlined[name]
+        if inlined[name] and inlined[name] == refs[name]:
+            st._inlined = True
+    return total
+
+
+def as_update(stmt):
+    """(target text, operator class, operand text) of  t op= v  or of the
+    equivalent  t = t op v  (also  t = v op t  for + and *); else None"""
+    if isinstance(stmt, ast.AugAssign):
+        return (norm(stmt.target), type(stmt.op), norm(stmt.value))
+    if isinstance(stmt, ast.Assign) and len(stmt.targets) == 1 and \
+            isinstance(stmt.value, ast.BinOp):
+        t = norm(stmt.targets[0])
+        b = stmt.value
+        if norm(b.left) == t:
+            return (t, type(b.op), norm(b.right))
+        if norm(b.right) == t and isinstance(b.op, (ast.Add, ast.Mult)):
+            return (t, type(b.op), norm(b.left))
+    return None
+
+
+def _alias_chain(e, stable_attr):
+    """self.a[.b...] where no attribute of the chain is ever re-bound outside
+    an __init__: the alias and the chain denote the same object"""
+    if stable_attr is None or not isinstance(e, ast.Attribute):
+        return False
+    while isinstance(e, ast.Attribute):
+        if not stable_attr(e.attr):
+            return False
+        e = e.value
+    return isinstance(e, ast.Name) and e.id == "self"
+
+
+def inline_pure_locals(fnode, max_size=90, stable_attr=None):
     """Replace every use of a local name that is assigned exactly once, by a
     pure expression over stable operands, with that expression (the
     assignment stays).  `nside = 2**depth` / `factor = 4**(d - k)` /
@@ -412,7 +636,8 @@ def inline_pure_locals(fnode, max_size=90):
             nm = n.targets[0].id
             if nm in params or len(stores.get(nm, [])) != 1:
                 continue
-            if not _pure_expr(n.value):
+            if not (_pure_expr(n.value) or
+                    _alias_chain(n.value, stable_attr)):
                 continue
             try:
                 if len(ast.unparse(n.value)) > max_size:
